@@ -317,7 +317,7 @@ class AbstractContainer(abstract.GeomdlBase):
 
     def reset(self):
         """ Resets the cache. """
-        self._cache['evalpts'][:] = []
+        self._cache['evalpts'] = []
 
     # Runs visualization component to render the surface
     @abc.abstractmethod
@@ -738,8 +738,8 @@ class SurfaceContainer(AbstractContainer):
     def reset(self):
         """ Resets the cache. """
         super(SurfaceContainer, self).reset()
-        self._cache['vertices'][:] = []
-        self._cache['faces'][:] = []
+        self._cache['vertices'] = []
+        self._cache['faces'] = []
 
     def render(self, **kwargs):
         """ Renders the surfaces.
